@@ -112,6 +112,10 @@ func ExtractIndexNames(path string) ([]string, []string) {
 	indexValues := make([]string, 0)
 	jsonMatches := rOnIndex.FindAllStringSubmatch(path, -1)
 	for _, m := range jsonMatches {
+		if strings.LastIndex(m[1], "=") < 1 {
+			// brackets without a key name and value are not an index
+			continue
+		}
 		idxName := m[1][1:strings.LastIndex(m[1], "=")]
 		indexNames = append(indexNames, idxName)
 		idxValue := m[1][strings.LastIndex(m[1], "=")+1 : len(m[1])-1]
@@ -134,9 +138,10 @@ func FindPathFromModel(path string, rwPaths ReadWritePathMap, exact bool) (bool,
 	}
 
 	if strings.HasSuffix(path, "]") { //Ends with index
-		indices, _ := ExtractIndexNames(path)
-		// Add on the last index
-		searchPathNoIndices = fmt.Sprintf("%s/%s", searchPathNoIndices, indices[len(indices)-1])
+		if indices, _ := ExtractIndexNames(path); len(indices) > 0 {
+			// Add on the last index
+			searchPathNoIndices = fmt.Sprintf("%s/%s", searchPathNoIndices, indices[len(indices)-1])
+		}
 	}
 
 	// First search through the RW paths
